@@ -1,4 +1,5 @@
 import DarkluaModel.Shared.Sem
+import DarkluaModel.Rules.NoAlloc
 /-!
 # The static evaluator as the default rules see it (`src/process/evaluator/mod.rs`)
 
@@ -48,33 +49,7 @@ def EvalApi.isTruthy (api : EvalApi) (e : Expr) : Option Bool := (api.kind e).is
 
 Dropping the evaluation of such an expression leaves the state *exactly* as it was; dropping
 an allocating one changes the numbering of later tables/closures (unobservable, but not an
-equality of states). The exact local lemmas carry `NoAlloc`. -/
-mutual
-  def noAlloc : Expr → Bool
-    | .nil | .true | .false | .vararg | .num _ | .str _ | .var _ => true
-    | .paren e => noAlloc e
-    | .un _ e => noAlloc e
-    | .bin _ l r => noAlloc l && noAlloc r
-    | .call f _ _ args => noAlloc f && noAllocList args
-    | .field e _ => noAlloc e
-    | .index e k => noAlloc e && noAlloc k
-    | .fn _ => false
-    | .table _ => false
-    | .ifx c t elifs e => noAlloc c && noAlloc t && noAllocPairs elifs && noAlloc e
-    | .interp segs => noAllocSegs segs
-    | .cast e _ => noAlloc e
-    | .inst e _ => noAlloc e
-  def noAllocList : List Expr → Bool
-    | [] => true
-    | e :: es => noAlloc e && noAllocList es
-  def noAllocPairs : List (Expr × Expr) → Bool
-    | [] => true
-    | (a, b) :: rest => noAlloc a && noAlloc b && noAllocPairs rest
-  def noAllocSegs : List Seg → Bool
-    | [] => true
-    | .s _ :: rest => noAllocSegs rest
-    | .v e :: rest => noAlloc e && noAllocSegs rest
-end
+equality of states). The exact local lemmas carry `noAlloc` (`Rules/NoAlloc.lean`, shared with C08). -/
 
 open Sem
 
